@@ -149,6 +149,41 @@ theorem compile_lower_correct (I : Interp V) (s : Src) (e : Expr) (kw : Kw V) (h
   obtain ⟨p, v, h1, h2, h3⟩ := compile_correct I e kw hkw
   exact ⟨p, v, h1, h2, by rw [← lower_denote I kw s e hl]; exact h3⟩
 
+/-! ## repeated operands of a Contraction are kept (multiset semantics) -/
+
+/-- Dropping a repeated operand of a two-operand contraction is sound exactly when the op is idempotent
+    at that operand. -/
+theorem dedup_pair_sound_iff {α : Type} [DecidableEq α] (f : α → α → α) (x : α) :
+    reduce1 f ([x, x].eraseDups) = reduce1 f [x, x] ↔ f x x = x := by
+  have h : ([x, x] : List α).eraseDups = [x] := by
+    simp [List.eraseDups_cons]
+  rw [h]
+  simp [reduce1, eq_comm]
+
+/-- If emitting repeated operands once is sound for every operand list, the op is idempotent. -/
+theorem idempotent_of_dedup_sound {α : Type} [DecidableEq α] (f : α → α → α)
+    (h : ∀ l : List α, reduce1 f l.eraseDups = reduce1 f l) : ∀ x, f x x = x :=
+  fun x => (dedup_pair_sound_iff f x).mp (h [x, x])
+
+/-- Conversely idempotence is what licenses dropping an adjacent repeat at the head of the chain. -/
+theorem reduce1_drop_head_repeat {α : Type} (f : α → α → α) (hid : ∀ x, f x x = x) (x : α) (rest : List α) :
+    reduce1 f (x :: x :: rest) = reduce1 f (x :: rest) := by
+  simp [reduce1, hid]
+
+/-- **Witness for seeded defect C18_7.**  `xor` (here addition mod 2) is associative and commutative but
+    not idempotent: for the contraction `b ^ b` the deduplicated lowering evaluates to `b` (= 1), the source
+    term and the real lowering to 0; for `(b ^ c) ^ b` it gives `b ^ c` instead of `c`. -/
+theorem lowerContrDedup_not_sound :
+    let I : Interp Int := ⟨fun _ => 0, fun _ x => x, fun _ x y => (x + y) % 2, fun _ => 0⟩
+    let kw : Kw Int := [("b", 1), ("c", 0)]
+    let bb : Src := .contraction "xor" (.cons (.var "b") (.cons (.var "b") .nil))
+    let bcb : Src := .contraction "xor" (.cons (.var "b") (.cons (.var "c") (.cons (.var "b") .nil)))
+    evalSrc I kw bb = some 0 ∧ (lower bb).bind (eval I kw) = some 0 ∧
+    (lowerContrDedup "xor" [.var "b", .var "b"]).bind (eval I kw) = some 1 ∧
+    evalSrc I kw bcb = some 0 ∧ (lower bcb).bind (eval I kw) = some 0 ∧
+    (lowerContrDedup "xor" [.var "b", .var "c", .var "b"]).bind (eval I kw) = some 1 := by
+  refine ⟨by decide, by decide, by decide, by decide, by decide, by decide⟩
+
 /-- **Witness for seeded defect C18_3.**  With ops uninterpreted, cancelling an op against its registered
     inverse is not sound: here `abs` is registered as the inverse of `abs` (a partial inverse, like
     tanh/atanh or exp/log outside the principal domain) and the cancelled term evaluates to -1, the
